@@ -221,6 +221,13 @@ class Skel:
             out.extend(inner)
             self.late.extend(inner)
             return out
+        if isinstance(e, ast.IfExp):
+            # the sinks of the two arms run under the test (refined when it is `x is None` / `x`)
+            self.sinks_of(e.test, out)
+            a, b = seq(*self.sinks_of(e.body, [])), seq(*self.sinks_of(e.orelse, []))
+            if a != SKIP or b != SKIP:
+                out.append(self.branch(e.test, a, b))
+            return out
         for ch in ast.iter_child_nodes(e):
             self.sinks_of(ch, out)
         if isinstance(e, ast.Call):
@@ -284,6 +291,10 @@ class Skel:
         return ["iteNone" if kind == "none" else "iteTruthy", v, a, b]
 
     def assign_targets(self, targets, val):
+        if isinstance(val, ast.IfExp) and any(self.var_of(t) is not None for t in targets):
+            # x = A if T else B   ==   if T: x = A  else: x = B
+            return [self.branch(val.test, seq(*self.assign_targets(targets, val.body)),
+                                seq(*self.assign_targets(targets, val.orelse)))]
         out = []
         for t in targets:
             v = self.var_of(t)
